@@ -31,7 +31,8 @@ if "--skip-existing" not in sys.argv:
     for c in meta.get("existing_tests_run", []):
         if not c.strip().startswith("go test"):
             continue
-        c = c.split("   (")[0].split("  #")[0].strip()  # drop trailing prose
+        import re as _re
+        c = _re.split(r"\s{2,}[(#]", c)[0].strip()  # drop trailing prose
         rc, out = sh(c)
         ran.setdefault("existing_with_patch", []).append({"cmd": c, "exit": rc})
         if rc != 0:
